@@ -177,7 +177,7 @@ func (m *Model) writeFacts(cal *ssa.Function, k int) []wfact {
 				}
 			case ssa.CallInstruction:
 				c := in.Common()
-				cc := c.StaticCallee()
+				cc := Unthunk(c.StaticCallee())
 				if cc == nil {
 					if BuiltinName(c) == "copy" && m.IsWordSlice(c.Args[0].Type()) && m.RootsOf(c.Args[0])[lab] {
 						sites = append(sites, b)
@@ -364,7 +364,7 @@ func (m *Model) refineElemWrites() {
 						}
 					case ssa.CallInstruction:
 						c := in.Common()
-						cal := c.StaticCallee()
+						cal := Unthunk(c.StaticCallee())
 						if cal == nil {
 							if BuiltinName(c) == "copy" && m.IsWordSlice(c.Args[0].Type()) {
 								out.add(m.rootsOfAt(c.Args[0], b))
@@ -478,4 +478,91 @@ func (m *Model) phiEdgeRefuted(ph *ssa.Phi, ei int, site *ssa.BasicBlock) bool {
 		}
 	}
 	return len(ek) > 1 && contradict(ek, siteK, eops, siteOps)
+}
+
+// PhiEdgeInfeasibleAt: the value the φ takes from its edge ei cannot be the one seen at block
+// site, because a comparison with a constant of some value S (or of its length) that holds on
+// every way into that edge contradicts one of the same S that holds on every way to the site
+// (`if len(m) == 0 { e = 0 } else { e = f(m) }` joined in front of `if len(m) == 0 { use(e) }`).
+// S must not be recomputed between the φ and the site: its block is not reachable from the φ's.
+func (m *Model) PhiEdgeInfeasibleAt(ph *ssa.Phi, ei int, site *ssa.BasicBlock) bool {
+	fn := site.Parent()
+	if ph.Parent() != fn || ei >= len(ph.Block().Preds) {
+		return false
+	}
+	type key struct {
+		s     ssa.Value
+		isLen bool
+	}
+	type facts struct {
+		k   [][2]int64
+		ops []token.Token
+	}
+	at := map[key]*facts{}
+	on := map[key]*facts{}
+	pred := ph.Block().Preds[ei]
+	for _, gb := range fn.Blocks {
+		for si := 0; si < len(gb.Succs) && si < 2; si++ {
+			subj, isLen, op, kk, ok := edgeCmp(gb, si)
+			if !ok || gb.Succs[0] == gb.Succs[1] {
+				continue
+			}
+			k := key{subj, isLen}
+			if m.EdgeDominates(gb, si, site) {
+				if at[k] == nil {
+					at[k] = &facts{}
+				}
+				at[k].k = append(at[k].k, [2]int64{0, kk})
+				at[k].ops = append(at[k].ops, op)
+			}
+			if (gb == pred && gb.Succs[si] == ph.Block()) || m.EdgeDominates(gb, si, pred) {
+				if on[k] == nil {
+					on[k] = &facts{}
+				}
+				on[k].k = append(on[k].k, [2]int64{0, kk})
+				on[k].ops = append(on[k].ops, op)
+			}
+		}
+	}
+	for k, a := range at {
+		stable := k.s
+		if p2, ok := k.s.(*ssa.Phi); ok && p2.Block() == ph.Block() {
+			// a value joined at the same place: on this edge it is its ei-th operand
+			k.s = unconv(p2.Edges[ei])
+		}
+		o := on[k]
+		if o == nil || !contradict(o.k, a.k, o.ops, a.ops) {
+			continue
+		}
+		k.s = stable
+		// stable subject
+		switch d := k.s.(type) {
+		case *ssa.Parameter, *ssa.Const:
+			return true
+		case ssa.Instruction:
+			if d.Block() == nil || !blockReaches(ph.Block(), d.Block()) {
+				return true
+			}
+		}
+	}
+	return false
+}
+
+func blockReaches(from, to *ssa.BasicBlock) bool {
+	seen := map[*ssa.BasicBlock]bool{}
+	work := []*ssa.BasicBlock{}
+	work = append(work, from.Succs...)
+	for len(work) > 0 {
+		b := work[len(work)-1]
+		work = work[:len(work)-1]
+		if seen[b] {
+			continue
+		}
+		seen[b] = true
+		if b == to {
+			return true
+		}
+		work = append(work, b.Succs...)
+	}
+	return false
 }
